@@ -236,6 +236,12 @@ class Stats:
 _WORKER_CHECK = None
 
 
+def _try_predefined(_):
+    from sim import world
+    world.load_predefined()
+    return True
+
+
 def _worker_init(check_mod_name, variant, repo_src):
     global _WORKER_CHECK
     from sim import world
@@ -277,6 +283,14 @@ def run_batch(check, verif_seed: int, tier: str, budget_s: float,
         min(16, os.cpu_count() or 1)
     ctx = multiprocessing.get_context('fork')
     variants = list(check.VARIANTS)
+    unavailable = {}
+    if 'predefined' in variants:
+        # can the catalogue be imported at all in this tree?
+        try:
+            run_in_child(_try_predefined, None)
+        except HarnessError as e:
+            unavailable['predefined'] = str(e)[-600:]
+            variants.remove('predefined')
     share = getattr(check, 'VARIANT_WORKER_SHARE', None) or \
         {v: 1.0 / len(variants) for v in variants}
     pools = {}
@@ -299,6 +313,7 @@ def run_batch(check, verif_seed: int, tier: str, budget_s: float,
     harness_errors = []
     n_viol = 0
     done_submitting = False
+    skipped = [0]
 
     def refill():
         nonlocal next_run, done_submitting
@@ -327,8 +342,11 @@ def run_batch(check, verif_seed: int, tier: str, budget_s: float,
                 if max_runs is not None and next_run >= max_runs:
                     done_submitting = True
                     break
-                queues[check.variant_of(verif_seed, next_run)].append(
-                    next_run)
+                vv = check.variant_of(verif_seed, next_run)
+                if vv in queues:
+                    queues[vv].append(next_run)
+                else:
+                    skipped[0] += 1
                 next_run += 1
 
     try:
@@ -360,4 +378,5 @@ def run_batch(check, verif_seed: int, tier: str, budget_s: float,
             p.shutdown(wait=True, cancel_futures=True)
     results.sort(key=lambda r: r['run'])
     return {'results': results, 'harness_errors': harness_errors,
-            'wall_s': time.monotonic() - t_start, 'workers': workers}
+            'wall_s': time.monotonic() - t_start, 'workers': workers,
+            'variants_unavailable': unavailable, 'runs_skipped': skipped[0]}
